@@ -43,7 +43,7 @@ def world(seed):
         graphs["g:twins"] = {"nodes": [(i, "apple", []) for i in ids], "edges": [("a:e1", "a:a", "a:b", 0.5, "supports")]}
     eps = []
     words = ["apple", "banana", "cherry", "pie", "date", "elder", "fig", "weather"]
-    for i in range(r.randrange(0, 7)):
+    for i in range(r.randrange(0, 7) if seed % 3 != 1 else r.randrange(3, 7)):      # (booting worlds co-retrieve: see knobs)
         text = " ".join(r.choice(words) for _ in range(r.randrange(1, 5)))
         eps.append(E.mk_episode(f"ep{i}", r.choice(["A", "B", "world"]), text, ts=f"2025-08-{r.randrange(1, 29):02d}T00:00:00Z",
                                 importance=r.choice([0.0, 0.5, 1.0]), cluster=r.choice(["c1", "c2", None])))
@@ -62,6 +62,12 @@ def knobs(seed):
                    "hybrid": {"enabled": r.random() < 0.3}},
             "t1": {"radius_cap": r.choice([1, 2, 4]), "iter_cap": r.choice([1, 3, 50])},
             "t3": {"max_ops_per_turn": r.choice([1, 3])}}
+    # a GEL that learns quickly and merges small clusters, so that (when a behaviour opens the graph gate and the
+    # maintenance passes) the meta block persisted in the snapshot has something in it
+    over["graph"] = {"coactivation_threshold": 0.0, "observe_top_k": 4, "update": {"mode": "additive", "alpha": 0.3},
+                     "merge": {"min_size": 2, "min_avg_w": 0.05, "max_diameter": 2, "cap_per_turn": 4}}
+    if seed % 3 == 1:             # the booting worlds: several memories retrieved together, so the GEL has pairs to learn from
+        over["t2"].update({"k_retrieval": 4, "sim_threshold": -1.0, "owner_scope": "any"})
     if r.random() < 0.5:          # stage caches on (process-global): warm re-runs hit them
         over["t1"]["cache"] = {"enabled": True}
         over["t2"]["cache"] = {"enabled": True}
@@ -97,7 +103,10 @@ def run_once(case, outdir, clock, tag, eps_override=None):
     if eps_override is not None:
         eps = eps_override(eps)
     d = os.path.join(outdir, tag)
-    s = Session(d, base_cfg=knobs(case["world"]), graphs=graphs, episodes=eps)
+    # every third world starts from a state that has not booted yet: the first turn runs the snapshot loader, which
+    # builds the (empty) GEL containers itself
+    booting = case["world"] % 3 == 1
+    s = Session(d, base_cfg=knobs(case["world"]), graphs=graphs, episodes=eps, boot_loaded=not booting)
     if tag == "warm2" and LAST_INDEX_ID[0] is not None:
         # adversarial but legal allocation: the new world's memory index lands on the address of the index that the
         # previous (dropped) world used - CPython reuses freed addresses
@@ -112,8 +121,9 @@ def run_once(case, outdir, clock, tag, eps_override=None):
     LAST_INDEX_ID[0] = id(s.state["mem_index"])
     s.log_dir = os.path.join(d, "logs")
     import copy
-    s.state["graph"] = copy.deepcopy(gel)
-    s.state["gel"] = s.state["graph"]
+    if not booting:
+        s.state["graph"] = copy.deepcopy(gel)
+        s.state["gel"] = s.state["graph"]
     agents = ["A", "B"]
     texts = ["I like APPLE and banana", "cherry pie, fruit!", "date elder fig", ""]
     obs = []
@@ -142,6 +152,8 @@ def run_once(case, outdir, clock, tag, eps_override=None):
         for ti, step in enumerate(case["h"]):
             inp = dict(step["inp"])
             inp["reuse"] = False
+            if booting:                     # the booting worlds run with the GEL and its maintenance passes live
+                inp["graph"] = inp["maint"] = True
             cur["sched"] = bool(inp.get("sched"))
             s.agent = agents[ti % 2]
             s.text = texts[(ti + case["world"]) % len(texts)]
@@ -180,7 +192,10 @@ def run_once(case, outdir, clock, tag, eps_override=None):
     return obs
 
 
-WALL_DATES = {"zero": None, "huge": (2031, 3, 3), "random": (2025, 12, 24)}
+# "random": a wall date two days BEFORE the logical clock of the turns, so that a recency window anchored on the wall
+# clock instead of ctx.now still contains the memories (a far-away wall date empties the window under every
+# perturbation alike and the runs would agree with each other)
+WALL_DATES = {"zero": None, "huge": (2031, 3, 3), "random": (2025, 8, 30)}
 
 
 def install_wall_clock(clock):
